@@ -469,7 +469,7 @@ PROPS = {
     ),
     "C12": app(
         "C12",
-        ["C12_diff_apply", "C12_updates_sorted", "C12_removals_present", "C12_order_independent", "C12_live",
+        ["C12_diff_apply", "C12_updates_sorted", "C12_removals_present", "C12_order_independent", "C12_no_change", "C12_minimal", "C12_live",
          "C12_quorum_ge_threshold"],
         "Theorems over all power maps / all listings (Lean); the real DiffPowermaps/EndBlock are compared with the model "
         "on generated histories and on all pairs of small power maps, and a reference Tendermint validator set is folded "
